@@ -207,6 +207,8 @@ pub struct ExecExtra {
     pub verify_header: Option<String>,
     /// per-request faults of the HTTP server
     pub net_script: Vec<Option<crate::net::NetFault>>,
+    /// do not pass --force-create although the output exists (the clone must refuse)
+    pub no_force: bool,
 }
 
 /// `presented`: the bytes actually served / stored as the archive (a corrupted copy)
@@ -252,7 +254,7 @@ pub fn execute_with(f: &Fam, presented: Option<&[u8]>, extra: &ExecExtra) -> Obs
         match &f.prior {
             Some(p) => {
                 scen::put_file("out.bin", p);
-                if !f.seed_output {
+                if !f.seed_output && !extra.no_force {
                     opts.force_create = true;
                 }
             }
